@@ -4,7 +4,7 @@ from .. import monitor, mon_alg, w_alg
 LEVEL = 'exploration'
 SHARDS = {'quick': 2, 'thorough': 16}
 BUDGET = {'quick': 60, 'thorough': 600}
-RULE = ('merge/embed/mask/forwards over pairs and triples of the universe including role-inconsistent ones, n up to len+2, '
+RULE = ('(plain inputs: all at once, and one input at a time next to upgraded ones) merge/embed/mask/forwards over pairs and triples of the universe including role-inconsistent ones, n up to len+2, '
         'foreign, duplicate and positional-only names, all flags; the monitor classifies the exception type, re-validates '
         'every result, and re-runs each call with downgraded (plain inspect.Signature) inputs under '
         'warnings.catch_warnings(record=True); retrieval side: sigtools.signature over generated forwarding programs, a share of '
